@@ -14,8 +14,10 @@ import InTotoModel.Props.C16
   inspection names, thresholds, rules, authorized key ids, commands; readme, key table, expiry.
   Composition: two different links, or two different layouts, are never signed over the same bytes
   (`c05_distinct_links_…`, `c05_distinct_layouts_…`).  For layouts the two outside parts enter as
-  hypotheses (`EnvInjective`): chrono's writer gives different texts for different instants (to
-  the second) and different keys have different JSON descriptions (C12).
+  hypotheses (`EnvInjective`): the expiry writer gives different texts for different instants (to
+  the second) and different keys have different JSON descriptions (C12).  The first of the two is a
+  theorem about the model of chrono's writer (`Lemmas/TimeParse.lean`) and is discharged in
+  `c05_distinct_layouts_distinct_signed_bytes_std`.
 -/
 namespace InToto.Json
 
@@ -56,6 +58,26 @@ theorem c05_distinct_layouts_distinct_signed_bytes {K : Type} (E : DocEnv K) (hE
   intro e
   subst e
   exact hne (layout_norm_injective E hE hc hc' (c05_signed_text_injective h h'))
+
+open InToto.Wire in
+/-- The same with the modelled RFC 3339 writer (`Model/Time.lean`) in place of the hypothesis on the
+    expiry writer: two different layouts whose expiries are whole-second instants of the years
+    0000–9999 ("expiry to the second") are signed over different bytes, given only that different keys
+    have different JSON descriptions. -/
+theorem c05_distinct_layouts_distinct_signed_bytes_std {K : Type} (E : DocEnv K)
+    (hkey : ∀ k k', norm (E.keyToJson k) = norm (E.keyToJson k') → k = k')
+    {L L' : LayoutW K} (hc : LayoutCanon E L) (hc' : LayoutCanon E L')
+    (he : Time.WholeKey L.expires) (he' : Time.WholeKey L'.expires) (hne : L ≠ L')
+    {t t' : Str} (h : signedText (layoutToJson E.withStdTime L) = .ok t)
+    (h' : signedText (layoutToJson E.withStdTime L') = .ok t') :
+    t ≠ t' := by
+  intro e
+  subst e
+  apply hne
+  apply layout_norm_injective_of E.withStdTime (by rw [withStdTime_keyToJson]; exact hkey) ?_ ⟨hc.keys⟩ ⟨hc'.keys⟩
+    (c05_signed_text_injective h h')
+  rw [withStdTime_fmtTime]
+  exact Time.fmtTimeKey_injective he he'
 
 open InToto.Wire in
 /-- The same for single steps and inspections (every field of either is observable in the bytes). -/
